@@ -29,7 +29,7 @@ type install struct {
 
 func resourceManager(r *simrt.Run, tier string) {
 	t := r.Tape
-	w := &world{r: r, active: map[string]*exec{}, t0: time.Now()}
+	w := newWorld(r)
 	ev := drawEnv(r, tier, false)
 	ev.injectOn = t.Chance(1, 3)
 	closeAtEnd := t.Chance(1, 3)
@@ -142,8 +142,8 @@ func resourceManager(r *simrt.Run, tier string) {
 				r.Probe("waiter-of-panicked-create-got-error")
 				ok = true
 			}
-			for _, e := range w.execs {
-				if e.key == k && e.err != nil && sameErr(err, e.err) && overlaps(c, w.calls[e.leader]) {
+			for _, e := range w.execsBy[k] {
+				if e.err != nil && sameErr(err, e.err) && overlaps(c, w.calls[e.leader]) {
 					ok = true
 				}
 			}
@@ -174,8 +174,8 @@ func resourceManager(r *simrt.Run, tier string) {
 		// ... and it was not replaced (Inject) before the call, or before the calls it may share
 		// a flight with, began
 		tmin := c.inv
-		for _, d := range w.calls {
-			if d != c && d.key == k && d.inv < tmin && overlaps(c, d) {
+		for _, d := range w.callsBy[k] {
+			if d != c && d.inv < tmin && overlaps(c, d) {
 				tmin = d.inv
 			}
 		}
@@ -197,7 +197,11 @@ func resourceManager(r *simrt.Run, tier string) {
 		}
 	}
 	w.nested = invoke
-	var tasks []*simrt.Task
+	if ev.churn != nil {
+		r.Probe("churn-resourcemanager")
+	}
+	ev.churnBefore(invoke)
+	tasks := ev.churnStart(r, invoke)
 	for i := 0; i < ev.nTasks; i++ {
 		i := i
 		tasks = append(tasks, r.Go(fmt.Sprintf("client%d", i), func() {
